@@ -266,6 +266,12 @@ func c10Check(coll geojson.Object, expectChildren []string, probes []geojson.Obj
 		own = own[:6]
 	}
 	all := append(append(append([]geojson.Object{}, probes...), own...), coll)
+	nPlain := len(all)
+	// and every probe once more inside a caller-side wrapper type (an Object
+	// implemented outside the library): it answers as what it wraps
+	for _, x := range probes {
+		all = append(all, wrapped{x, "tag"})
+	}
 	for pi, x := range all {
 		parts := partsOf(x)
 		mi, mc := false, false
@@ -294,6 +300,15 @@ func c10Check(coll geojson.Object, expectChildren []string, probes []geojson.Obj
 		}
 		mc = anyPart && allContained
 		w.Evals += 2
+		if pi >= nPlain {
+			// wrapper: the model is what the library answers for the wrapped object itself
+			inner := x.(wrapped).Object
+			if gi, gc := coll.Intersects(x), coll.Contains(x); gi != coll.Intersects(inner) || gc != coll.Contains(inner) {
+				fails = append(fails, [3]string{fmt.Sprintf("wrapped(probe %d)", pi-nPlain), fmt.Sprintf("as for the wrapped object: intersects=%v contains=%v", coll.Intersects(inner), coll.Contains(inner)), fmt.Sprintf("intersects=%v contains=%v", gi, gc)})
+			}
+			w.Evals += 2
+			continue
+		}
 		if g := coll.Intersects(x); g != mi {
 			fails = append(fails, [3]string{fmt.Sprintf("intersects(probe %d)", pi), fmt.Sprintf("%v: some non-empty child intersects some non-empty part of %s", mi, x.JSON()), fmt.Sprint(g)})
 		}
